@@ -419,7 +419,8 @@ func c11InsertRowsVia(exec func(q string, args ...interface{}) error, t *c11Tabl
 			colSet[k] = true
 		}
 	}
-	addID := t.Model != nil && !colSet["id"] && !hasCol(t, "id") && modelHasID(t.Model)
+	idCol := c11IDCol(t)
+	addID := t.Model != nil && idCol != "" && !colSet[idCol] && !hasCol(t, idCol)
 	keys := make([]string, 0, len(colSet))
 	for k := range colSet {
 		keys = append(keys, k)
@@ -430,7 +431,7 @@ func c11InsertRowsVia(exec func(q string, args ...interface{}) error, t *c11Tabl
 		cols = append(cols, "`"+k+"`")
 	}
 	if addID {
-		cols = append(cols, "`id`")
+		cols = append(cols, "`"+idCol+"`")
 	}
 	one := "(" + strings.TrimSuffix(strings.Repeat("?,", len(cols)), ",") + ")"
 	per := 900 / len(cols)
@@ -475,6 +476,17 @@ func hasCol(t *c11Table, name string) bool {
 		}
 	}
 	return false
+}
+
+// column of the model's surrogate `ID` field ("" when it has none): `id` unless renamed by a column: tag
+func c11IDCol(t *c11Table) string {
+	if t.Model == nil || !modelHasID(t.Model) {
+		return ""
+	}
+	if f := c11Schema(t).LookUpField("ID"); f != nil {
+		return f.DBName
+	}
+	return ""
 }
 
 func modelHasID(m interface{}) bool {
@@ -1093,8 +1105,8 @@ func (t *c11Table) allCols() []string {
 	for _, c := range t.Cols {
 		out = append(out, c.Name)
 	}
-	if !hasCol(t, "id") && modelHasID(t.Model) {
-		out = append(out, "id")
+	if idCol := c11IDCol(t); idCol != "" && !hasCol(t, idCol) {
+		out = append(out, idCol)
 	}
 	return out
 }
